@@ -80,6 +80,25 @@ CHECKS["C04"] = dict(
     technique="static analysis: symbolic execution into layout templates + comparison with an independent layout grammar",
     ref="DESIGN.md §3 C04")
 
+CHECKS["C07"] = dict(
+    category="other",
+    text="The grammar file is analysed as source: operator strata and their operator sets (13 operators, one level each) equal the README's precedence table; every level's action is the left fold from_binary_expression whose step builds CallMethod{object: acc, name: spelling(op), arguments: [next]} (HIR); terminal ↦ Operator ↦ as_str is the identity; index sugar builds AccessArray/AssignArray in source order; dangling else resolved by the open/closed parameterisation; skip terminals have empty actions and all five regex terminals are language-equivalent (NFA→DFA over an abstract alphabet) to the reference regexes; LALR(1) conflict-freedom by LALRPOP at build time. Partial by design: print→reparse idempotence and decoration-insensitivity at every token boundary are language-level statements over all inputs and are NOT decided (lexer/unambiguity rules are necessary conditions only).",
+    note=TB + "; LALRPOP's conflict check and longest-match lexer; S6 from the README",
+    technique="static analysis: structural analysis of the LALRPOP grammar + regular-language equivalence of lexer regexes + HIR rules on the AST builders",
+    ref="DESIGN.md §3 C07")
+CHECKS["C09"] = dict(
+    category="other",
+    text="The built-in operations are finite decision tables. First-match pattern semantics (or-patterns, guards) are evaluated over {every spelling that occurs, OTHER} × {Null, Integer, Boolean, Reference} for the three dispatch tables; every cell's action — a closed form over receiver and argument whose meaning is fixed by the operator/method identity — equals S4, including Feeny spellings and operand order; argument count ≠ 1 fails first. Because actions are closed forms over i32 this decides the tables for all operand values. Build independence is decided at the operator level: plain + - * / unary - on i32 inherit overflow checks and are rejected (wrapping_* required); / and % check unconditionally.",
+    note=TB + "; Rust operator semantics on i32; LLVM",
+    technique="static analysis: match-table extraction + finite first-match evaluation + operator/operand-type census",
+    ref="DESIGN.md §3 C09")
+CHECKS["C15"] = dict(
+    category="other",
+    text="print decided as a state machine plus renderer shapes: the (escaped, char) table of eval_print evaluated by first-match semantics over {T,F} × {~ \\ \" n t r OTHER} equals S5 (covers every Unicode format string because the loop is over chars() and the default arm copies the character); both count-mismatch directions fail and null is pushed; per value kind the rendering shape equals S5 (literal texts, payload to_string, [..] with ', ', three object templates selected by parent/fields, name=value, sort on the field name preceding the traversal); the string-literal terminal admits exactly the VM's escape set and the String action strips only the quotes.",
+    note=TB + "; i32/bool to_string and slice::join",
+    technique="static analysis: match-table evaluation, handler templates, format_args templates, grammar/regex analysis",
+    ref="DESIGN.md §3 C15")
+
 PENDING_REASON = "check under construction in this round (static rules designed in DESIGN.md §3, not yet implemented)"
 
 
